@@ -68,6 +68,20 @@ def all_const_displays(F, path, include_closures=True):
 
 def char_set(F, path, include_closures=True):
     out = set()
+    # `matches!(c, 'a' | 'b')` is a switch on the char: its values are the characters
+    paths_ = [path] + ([c for c in (F.fns.get(path, {}).get("closures") or [])] if include_closures else [])
+    for pp in paths_:
+        m_ = F.mir(pp)
+        if m_ is None:
+            continue
+        for blk in m_["blocks"]:
+            t = blk["t"]
+            if t[0] == "switch" and t[1][0] != "k" and m_["locals"][t[1][1][0]][0] == "char":
+                for v, tgt in t[2]:
+                    try:
+                        out.add(chr(int(v)))
+                    except (ValueError, OverflowError):
+                        pass
     for d in all_const_displays(F, path, include_closures):
         c = parse_char_const(d)
         if c is not None:
@@ -88,6 +102,8 @@ def closure_arg_chars(F, b, call):
             c = parse_char_const(a[1])
             if c is not None:
                 out.add(c)
+            elif a[1].startswith("fn:"):        # a named predicate function instead of a closure
+                out |= char_set(F, a[1][3:])
             elif a[1].startswith('const "'):
                 out |= set(a[1][7:-1].replace("\\n", "\n").replace("\\r", "\r").replace("\\t", "\t"))
             continue
